@@ -8,6 +8,8 @@ CONSTANTS
  FixWriter = FALSE
  FixAdded = FALSE
  FixTag = FALSE
+ FixClose = FALSE
+ SrcKinds = {"reg", "dir"}
  Fine = FALSE
 SPECIFICATION Spec
 INVARIANT Emit
